@@ -108,6 +108,7 @@ template <class C> struct Exec {
     struct USlot {
         Uri* u = nullptr; int state = S_EMPTY; int mgr = 0; bool owned = false;
         std::set<int> texts; std::set<int> deps; int producer = -1;
+        std::set<int> ever;    // every text buffer this object ever borrowed from (survives the ownership transfer: this is what source_loss kills)
     };
     struct QSlot {
         QL* head = nullptr; int state = S_EMPTY; int mgr = 0; bool harness_built = false; int count = 0;
@@ -280,7 +281,7 @@ template <class C> struct Exec {
             if (i != slot && us[i].deps.count(slot) && us[i].state == S_VALID) us[i].state = S_STALE;
     }
     void lose_sources(int slot) {
-        std::set<int> t = us[slot].texts;
+        std::set<int> t = us[slot].ever;
         event("source_loss for u%d: %zu text buffer(s)", slot, t.size());
         for (int id : t) kill_text(id);
         for (int i = 0; i < N_USLOTS; i++) {
@@ -435,12 +436,13 @@ template <class C> struct Exec {
             mark_dependents_stale(s);
             if (!free_slot(opi, s, 1, 1)) return false;
         }
-        us[s].state = S_EMPTY; us[s].owned = false; us[s].texts.clear(); us[s].deps.clear();
+        us[s].state = S_EMPTY; us[s].owned = false; us[s].texts.clear(); us[s].deps.clear(); us[s].ever.clear();
         return true;
     }
 
     void inherit(USlot& d, const USlot& src, int src_index) {
         d.texts.insert(src.texts.begin(), src.texts.end());
+        d.ever.insert(src.ever.begin(), src.ever.end());
         if (src.owned) d.deps.insert(src_index); else d.deps.insert(src.deps.begin(), src.deps.end());
     }
 
@@ -450,6 +452,7 @@ template <class C> struct Exec {
     void exec_inplace(int i, const Op& op, OpOut& o, bool normalize);
     void exec_tostring(int i, const Op& op, OpOut& o);
     void exec_query(int i, const Op& op, OpOut& o);
+    void exec_misc(int i, const Op& op, OpOut& o);
 
     // after a fired allocation failure on op i whose output/in-place object is slot s: caller's ordinary cleanup + ledger check
     void after_failure_cleanup(int i, int s, bool lib_already_freed) {
